@@ -281,11 +281,14 @@ func New(active bool, cfg Cfg, planFn func(n int) Plan) (*Rig, error) {
 	copts := []hsms.ConnOption{
 		hsms.WithT3(cfg.T3), hsms.WithT5(cfg.T5), hsms.WithT6(cfg.T6), hsms.WithT7(cfg.T7), hsms.WithT8(cfg.T8),
 		hsms.WithReconnectBackoff(cfg.BackoffInit, cfg.BackoffMult), hsms.WithLinktestInterval(cfg.Linktest),
-		hsms.WithSessionID(r.Sid), hsms.WithCloseTimeout(cfg.CloseTimeout), hsms.WithWriteTimeout(cfg.WriteTimeout),
+		hsms.WithSessionID(r.Sid), hsms.WithCloseTimeout(cfg.CloseTimeout),
 		hsms.WithLogger(nullLogger{}),
 	}
 	if cfg.LinktestThreshold > 0 {
 		copts = append(copts, hsms.WithLinktestFailThreshold(cfg.LinktestThreshold))
+	}
+	if cfg.WriteTimeout >= 0 { // negative: leave the library default (30 s); 0 disables the bound
+		copts = append(copts, hsms.WithWriteTimeout(cfg.WriteTimeout))
 	}
 	opts := []hsmsss.Option{}
 	for _, o := range copts {
@@ -826,11 +829,10 @@ func (p *Peer) run() {
 		case 0: // data
 			if f.B2&0x80 != 0 && f.B3%2 == 1 {
 				p.DataSeen.Add(1)
-				if p.plan.MuteData {
-					continue
-				}
-				if !p.write(Enc(f.Sid, f.B2&0x7F, f.B3+1, 0, 0, f.Sys, p.plan.ReplyBody)) {
-					return
+				if !p.plan.MuteData {
+					if !p.write(Enc(f.Sid, f.B2&0x7F, f.B3+1, 0, 0, f.Sys, p.plan.ReplyBody)) {
+						return
+					}
 				}
 			}
 		case 9: // Separate.req: the library is leaving
